@@ -9,5 +9,6 @@ CONSTANTS
   FixWorkerErr = TRUE
   AllowStop = TRUE
   AllowFault = TRUE
+  AliveCheck = TRUE
 INVARIANT Report
 CHECK_DEADLOCK FALSE
